@@ -19,4 +19,22 @@ theorem tie_compute_domain_res (c : C14.Corners) (rx ry : Rat) :
       (let d := C14.domainRes c rx ry; ((d.x0, d.y0, d.x1, d.y1), d.w, d.h)) := by
   simp [Gen.compute_domain_res, C14.domainRes]
 
+/-- `_update_corners_for_full_extent` with missing x corners and a shape: the model's `fullExtentShape`
+(`west` / `east` = the CRS's area of use, obtained from pyproj) -/
+theorem tie_update_corners_shape (west east : Rat) (c : C14.Corners) (h w : Nat) :
+    Gen.update_corners_shape (none, c.ymin, none, c.ymax) ((h : Int), (w : Int)) west east =
+      (let c' := C14.fullExtentShape west east c w; (some c'.xmin, c'.ymin, some c'.xmax, c'.ymax)) := by
+  simp [Gen.update_corners_shape, C14.fullExtentShape]
+
+/-- … and with a resolution -/
+theorem tie_update_corners_res (west east : Rat) (c : C14.Corners) (rx ry : Rat) :
+    Gen.update_corners_res (none, c.ymin, none, c.ymax) (rx, ry) west east =
+      (let c' := C14.fullExtentRes west east c rx; (some c'.xmin, c'.ymin, some c'.xmax, c'.ymax)) := by
+  simp [Gen.update_corners_res, C14.fullExtentRes]
+
+/-- given x corners are returned unchanged -/
+theorem tie_update_corners_given (x0 : Rat) (x1 : Option Rat) (y0 y1 west east : Rat) (s : Int × Int) :
+    Gen.update_corners_shape (some x0, y0, x1, y1) s west east = (some x0, y0, x1, y1) := by
+  simp [Gen.update_corners_shape]
+
 end PyresampleModel.Tie
